@@ -158,9 +158,9 @@ func c10ClientCase(e *c10Env, cw *c10World, pos c10Pos, plain bool, class, what 
 		e.x.r.Violate(rep.Violation{Kind: "oracle", Check: "C10.no-hang", Signature: "C10.hang:" + name + ":" + class, Input: input,
 			Impl:          fmt.Sprintf("the client role did not return within %s although the peer stopped answering after %d more round trips (made %d)", c10Watchdog, rt.budget, rt.after),
 			PropertyFails: true})
-	case rt.cliAlloc > c10AllocBound(len(rt.wire)+rt.hdrBytes):
+	case rt.cliAlloc > c10AllocBoundAt(name, len(rt.wire)+rt.hdrBytes):
 		e.x.r.Violate(rep.Violation{Kind: "oracle", Check: "C10.alloc-bound", Signature: "C10.alloc:" + name + ":" + class, Input: input,
-			Impl: fmt.Sprintf("client allocated %d bytes after a %d-byte response (bound %d)", rt.cliAlloc, len(rt.wire)+rt.hdrBytes, c10AllocBound(len(rt.wire)+rt.hdrBytes)), PropertyFails: true})
+			Impl: fmt.Sprintf("client allocated %d bytes after a %d-byte response (bound %d)", rt.cliAlloc, len(rt.wire)+rt.hdrBytes, c10AllocBoundAt(name, len(rt.wire)+rt.hdrBytes)), PropertyFails: true})
 	}
 	e.x.r.Sample(map[string]string{"position": name, "mutation": what, "client": run.res}, 24)
 }
